@@ -2539,3 +2539,32 @@ def elem_method(interp, v: ElemV, name, args, kwargs, node):
             return Const(None)
     interp.log("call.method", node, obj=v, method=name, args=tuple(args), kwargs=dict(kwargs))
     return Sym(("mcall", desc(v), name, tuple(desc(a) for a in args), interp.fresh_id("c")))
+
+
+@ext("BitVector.BitVector")
+def _bitvector(interp, args, kwargs, node):
+    """BitVector(intVal=i, size=n) of two constants: the bit string of i in n digits (the repository only takes its str())."""
+    iv, sz = kwargs.get("intVal"), kwargs.get("size")
+    if isinstance(sz, LinV) and F.lin_is_const(sz.lin):
+        sz = Const(sz.lin[1])
+    if isinstance(iv, LinV) and F.lin_is_const(iv.lin):
+        iv = Const(iv.lin[1])
+    if not args and isinstance(iv, Const) and isinstance(sz, Const) and isinstance(iv.value, int) and isinstance(sz.value, int) and set(kwargs) == {"intVal", "size"}:
+        return Const(format(iv.value, f"0{sz.value}b") if sz.value > 0 else "")
+    interp.log("call.unknown", node, func=Sym(("ext", "BitVector.BitVector")), args=tuple(args), kwargs=dict(kwargs))
+    return Sym(("call", "BitVector.BitVector", tuple(desc(a) for a in args), tuple(sorted((k, desc(v)) for k, v in kwargs.items())), interp.fresh_id("c")))
+
+
+@ext("builtins.dict.fromkeys")
+def _dict_fromkeys(interp, args, kwargs, node):
+    """dict.fromkeys(keys, value) for concrete constant keys."""
+    if args and isinstance(args[0], Ref) and isinstance(interp.deref(args[0]), HList):
+        segs = interp.segments(args[0], node)
+        if all(sg[0] == "one" and isinstance(sg[1], Const) for sg in segs):
+            d = HDict()
+            val = args[1] if len(args) > 1 else Const(None)
+            for sg in segs:
+                interp.dict_store(d, sg[1], val, node)
+            return interp.alloc(d)
+    interp.log("call.unknown", node, func=Sym(("ext", "builtins.dict.fromkeys")), args=tuple(args), kwargs=dict(kwargs))
+    return Sym(("call", "builtins.dict.fromkeys", tuple(desc(a) for a in args), interp.fresh_id("c")))
